@@ -326,7 +326,8 @@ DenseSymmetricMatrixPair construct_lltsa_eigenproblem(SparseWeightMatrix W, Rand
             lhs.selfadjointView<Eigen::Upper>().rankUpdate(rank_update_vector_i, rank_update_vector_j, it.value());
         }
     }
-    lhs.selfadjointView<Eigen::Upper>().rankUpdate(sum, -1. / (end - begin));
+    // lhs is X W X^T as it stands: the rows and columns of the alignment matrix sum to zero,
+    // subtracting sum * sum^T / N here made the result depend on the origin of the feature space
 
     // UNRESTRICT_ALLOC;
 
